@@ -80,34 +80,19 @@ func runC10(c *RuleCtx) {
 				// every path from the store tests `counter op limit` before leaving the iteration/function, and the true edge stores setTo
 				over := AtomCmp("counter "+op+" "+what, isCtr, op, limit)
 				until := p.iterationUntil(f, s.Node)
-				okTest, _ := g.MustPass(sp.After(), PassOpts{Until: until}, func(n ast.Node) bool {
-					for _, e := range g.AtomEdges(over, true) {
-						if condNodeOf(e) == n {
+				if len(g.AtomEdges(over, true)) == 0 {
+					return false
+				}
+				// every path from the store that does not refute `counter op limit` performs the clamping store
+				ok, _ := g.MustPass(sp.After(), PassOpts{Cut: edgeCut(g.AtomEdges(over, false)), Until: until}, func(n ast.Node) bool {
+					for _, s2 := range p.StoresTo2(f, ct.field) {
+						if s2.Node == n && s2.Kind == "assign" && setTo(p.R(f).Val(s2.RHS)) {
 							return true
 						}
 					}
 					return false
 				})
-				if !okTest {
-					return false
-				}
-				for _, e := range g.AtomEdges(over, true) {
-					if !g.ReachableFrom(sp.After(), Point{e.From, 0}, nil, nil) {
-						continue
-					}
-					okSet, _ := g.MustPass(EdgeTarget(e), PassOpts{Until: until}, func(n ast.Node) bool {
-						for _, s2 := range p.StoresTo2(f, ct.field) {
-							if s2.Node == n && s2.Kind == "assign" && setTo(p.R(f).Val(s2.RHS)) {
-								return true
-							}
-						}
-						return false
-					})
-					if !okSet {
-						return false
-					}
-				}
-				return true
+				return ok
 			}
 			switch {
 			case s.Kind == "assign" && isZero(rv):
